@@ -243,6 +243,19 @@ Fixpoint shared_scan (keys : list (nat * key)) (dl : list (nat * key)) (l : list
   end.
 Definition shared_b (keys : list (nat * key)) (log : list ev) : bool := shared_scan keys [] log.
 
+(* the option tuples themselves: what "the same headers" means is stated on the multimap, independently of
+   connKey -- for EVERY name the same list of values (all of them, in order; a name without values is an absent
+   name: it is not sent at the upgrade) *)
+Definition hvals (h : hdrs) (n : N) : list N := flat_map (fun e => if N.eqb (fst e) n then snd e else []) h.
+Definition same_opts (a b : opts) : Prop :=
+  match a, b with
+  | (e1, p1, h1, i1), (e2, p2, h2, i2) => e1 = e2 /\ p1 = p2 /\ i1 = i2 /\ forall n, hvals h1 n = hvals h2 n
+  end.
+(* a key that looks at the FIRST value of every name only (what a "cheaper" connKey would hash): the option
+   tuple cut down to it *)
+Definition first_values (h : hdrs) : hdrs := map (fun e => (fst e, firstn 1 (snd e))) h.
+Definition first_value_opts (o : opts) : opts := match o with (e, p, h, ip) => (e, p, first_values h, ip) end.
+
 (* ------------------------------------------------------------------ conns_drain *)
 Definition is_internal (a : action) : bool :=
   match a with
